@@ -218,6 +218,13 @@ func init() {
 		"vPopcount8": func(ex *Exec, g *Goroutine, cs *callSite, args []Value) Value {
 			return ex.C.ZExt(ex.C.Popcount(args[0].(*Term)), 64)
 		},
+		// vParam(name, def): tier-dependent bound supplied by the check driver
+		"vParam": func(ex *Exec, g *Goroutine, cs *callSite, args []Value) Value {
+			if v, ok := ex.Params[ex.strArg(args[0])]; ok {
+				return ex.i64(int64(v))
+			}
+			return args[1]
+		},
 		"vIsSymbolicRun": func(ex *Exec, g *Goroutine, cs *callSite, args []Value) Value {
 			return ex.C.True()
 		},
@@ -230,16 +237,7 @@ func (ex *Exec) assert(g *Goroutine, c *Term, msg string, cs *callSite) {
 		return
 	}
 	where := ex.where(ex.topFrame(g), cs.pos)
-	if !ex.replaying() {
-		res, model := ex.solve(append(ex.pcCopy(), ex.C.Not(c)), true)
-		switch res {
-		case Sat:
-			ex.Violations = append(ex.Violations, &Violation{Kind: "assert", Msg: msg, Where: where, Model: model,
-				Trail: append([]int(nil), ex.trail...), Harness: ex.harness})
-		case Unknown:
-			ex.inconclusive("assertion '" + msg + "' at " + where + ": solver answered unknown (" + ex.S.LastErr + ")")
-		}
-	}
+	ex.findViolation(ex.C.Not(c), "assert", msg, where)
 	ex.decide(0, 1, "assert")
 	if c.IsFalse() {
 		panic(pathEnd{"assert false"})
